@@ -16,6 +16,10 @@ func init() {
 				_, nSink := reportOrderEvents(p, r, or, orderRules{sink: "R15d"})
 				r.Floor("R15d", "requires-sorted call sites reached from the tracker", nSink, 2)
 			}},
+			{ID: "R15g", Statement: "detection with a discarded error only on positions that exist", Run: func(p *Program, r *Report) {
+				r.Rule("R15g", "EXISTENCE-BEFORE-DETECTION: in the tracker, a position function whose error is discarded is applied to an element of a position list only behind an exact existence test of that position (or the list is in the reviewed table of lists that hold existing positions only)")
+				checkExistenceBeforeDetection(p, r, "R15g")
+			}},
 			{ID: "R15f", Statement: "recording a block applies its deletions", Run: func(p *Program, r *Report) {
 				r.Rule("R15f", "RECORD-APPLIES-DELETIONS: every root-info state the tracker records for a block (except the first) is computed by the call that applies the block's deletions to the previous root infos")
 				checkRecordAppliesDeletions(p, r, "R15f")
